@@ -64,14 +64,19 @@ def run(ctx):
     for (m, t, t0) in configs:
         for no_prss in ((False, True) if t0 is None else (False,)):
             for rep in range(ctx.n(2, 5)):
-                tname = ['secint16', 'secfld101', 'secint32', 'secfld_big', 'secfld101'][rep % 5] if rep < 5 else rng.choice(['secint16', 'secint32', 'secfld101', 'secfld_big'])
+                tnames = ['secint16', 'secfld101', 'secint64', 'secint32', 'secfld_big']
+                ci = configs.index((m, t, t0))
+                tname = tnames[(rep + 2 * ci + int(no_prss)) % 5] if rep < 5 else rng.choice(tnames)   # all types over the configs
                 seed = rng.randrange(10**6)
                 nops = ctx.n(10, 16)
-                prog_ops = [rng.choice(['add', 'sub', 'neg', 'scal', 'mul', 'mul', 'mul', 'sq', 'rand', 'cmp', 'addc', 'recip', 'bits'])
+                prog_ops = [rng.choice(['add', 'sub', 'neg', 'scal', 'mul', 'mul', 'mul', 'sq', 'rand', 'cmp', 'eq', 'addc', 'recip', 'bits'])
                             for _ in range(nops)]
                 if tname.startswith('secfld'):
                     prog_ops[0] = 'recip'      # small-field reciprocal (zero-sharing masked opening) in every field program
                     prog_ops[-1] = 'recip'
+                if tname == 'secint64':
+                    prog_ops[0] = 'eq'         # l/2 > sec_param: == goes through the probabilistic zero test _is_zero
+                    prog_ops[1] = 'eq'
                 picks = [(rng.randrange(10**6), rng.randrange(10**6), rng.randrange(-5, 6)) for _ in range(nops)]
                 inputs = [rng.choice([0, 1, -1, 2, 3, -7, 11]) for _ in range(m)]
                 sim = Sim(m, t if t0 is None else t0, no_prss=no_prss, seed=seed)
@@ -95,7 +100,7 @@ def run(ctx):
                         sim.mods[i]['mpyc.runtime'].thresha.random_split = wrapped
                     if t0 is not None:
                         for mpc_i in sim.mpcs:
-                            for st_ in (mpc_i.SecInt(16), mpc_i.SecInt(32), mpc_i.SecFld(101), mpc_i.SecFld(modulus=2**61 - 1)):
+                            for st_ in (mpc_i.SecInt(16), mpc_i.SecInt(32), mpc_i.SecInt(64), mpc_i.SecFld(101), mpc_i.SecFld(modulus=2**61 - 1)):
                                 mpc_i.prfs(st_.field.order)
                             mpc_i.threshold = t
                     if not all(x is True for x in sim.start()):
@@ -107,6 +112,8 @@ def run(ctx):
                             st = mpc.SecInt(16)
                         elif tname == 'secint32':
                             st = mpc.SecInt(32)
+                        elif tname == 'secint64':
+                            st = mpc.SecInt(64)
                         elif tname == 'secfld101':
                             st = mpc.SecFld(101)
                         else:
@@ -121,7 +128,7 @@ def run(ctx):
                         for k, (a, b, c) in zip(prog_ops, picks):
                             nbefore = len(deal_log[pid])
                             ia, ib = a % len(vals), b % len(vals)
-                            if k == 'cmp' or (k == 'recip' and not tname.startswith('secfld')):
+                            if k in ('cmp', 'eq') or (k == 'recip' and not tname.startswith('secfld')):
                                 ia, ib = a % m_, b % m_      # comparisons / abs only on the (small, in-range) inputs
                             x, y = vals[ia], vals[ib]
                             if k == 'add':
@@ -143,6 +150,11 @@ def run(ctx):
                                 z = mpc._random(st)
                             elif k == 'cmp':
                                 z = (x == y) if tname.startswith('secfld') else (x < y)
+                            elif k == 'eq':
+                                if picks.index((a, b, c)) % 2 == 0:
+                                    ib = ia
+                                    y = x          # equal operands: the result must be 1
+                                z = (x == y)
                             elif k == 'recip':
                                 # field reciprocal (masked opening of a*r; zero-sharing with PRSS in small fields);
                                 # x*x+1 is opened first so that only nonzero values are inverted; secint: |x| instead
@@ -195,6 +207,8 @@ def run(ctx):
                                 v = pow(w, -1, p) if w else 0
                             elif k == 'recip':
                                 v = abs(exp[ia] if exp[ia] <= p // 2 else exp[ia] - p)
+                            elif k == 'eq':
+                                v = int(exp[ia] == exp[ib])
                             else:
                                 v = res[0]['outs'][j]       # rand / cmp / bits: value as opened
                                 if k in ('cmp', 'bits') and v % p not in (0, 1):
